@@ -5,9 +5,11 @@ import (
 	"encoding/json"
 	"fmt"
 	"os"
+	"path/filepath"
 	"sort"
 	"strings"
 	"sync"
+	"sync/atomic"
 	"time"
 
 	"go.miragespace.co/specter/kv/aof"
@@ -35,6 +37,7 @@ var c21Alphabet = []c21Op{
 	"imp2", // import {ab: empty simple; a: no simple, children [x]} (overlaps a)
 	"rmk(a)", "rmk(a,c)", "rmk(ab)",
 	"restart",
+	"enospc", // the next write to the log fails with ENOSPC, nothing is written (disarmed by a restart)
 }
 
 // core alphabet for one more level of full enumeration (thorough)
@@ -43,12 +46,13 @@ var c21CoreAlphabet = []c21Op{
 	"app(a,x)", "app(c,x)", "rem(a,x)",
 	"imp1", "imp2", "rmk(a)", "rmk(a,c)",
 	"restart",
+	"enospc",
 }
 
 // multi-segment variant: 1.1 MB values make the 2 MB log segment roll after two puts, so
 // the next entry (possibly a rejected append that is rolled back) opens a new segment.
 var c21BigAlphabet = []c21Op{
-	"putbig(a)", "putbig(ab)", "app(a,x)", "rem(a,x)", "del(a)", "put(c,v2)", "restart",
+	"putbig(a)", "putbig(ab)", "app(a,x)", "rem(a,x)", "del(a)", "put(c,v2)", "restart", "enospc",
 }
 
 var c21Universe = []string{"a", "ab", "c"}
@@ -176,7 +180,31 @@ type c21Out struct {
 	Restarts  int
 	Segments  int
 	OtherDiff int    // restarts where listings / lease tokens differed (not a verdict)
+	Refused   int    // mutations refused with an error because their log write failed (no visible effect)
+	AckedFail int    // mutations acknowledged although their log write failed
+	Dirty     int    // hidden log state since the last restart event (BFS key): 0 clean, 1 a log write failed, 2 ... and a later mutation was acknowledged
+	Armed     bool   // a failure is still armed at the end of the history (BFS key)
+	AckNoop   int    // ... of which nothing at all changed in the served content (e.g. RemoveKeys swallows the error)
 	Final     string // canonical content after the history (BFS key)
+}
+
+func logDirOf(dir string) string { return filepath.Join(dir, aof.LogDir) }
+
+func armedRemaining(walDir string) int32 {
+	if v, ok := armedDirs.Load(walDir); ok {
+		return v.(*atomic.Int32).Load()
+	}
+	return 0
+}
+
+func countEvents(p []c21Op, ev c21Op) int {
+	n := 0
+	for _, o := range p {
+		if o == ev {
+			n++
+		}
+	}
+	return n
 }
 
 func countSegments(dir string) int {
@@ -226,21 +254,65 @@ func c21Run(path []c21Op, hm hashMode) (out c21Out, err error) {
 		}
 		return true
 	}
+	walDir := logDirOf(dir)
+	defer disarmWriteFailure(walDir)
 	for i, o := range path {
 		if o == "restart" {
+			disarmWriteFailure(walDir)
+			out.Dirty = 0
 			if !restart(i) {
 				return out, err
 			}
 			continue
 		}
-		if r := c21Apply(kv, o); r != "ok" {
-			if r != "err:prefix-conflict" {
-				out.Desc, out.What = "mutation-error:"+r, fmt.Sprintf("step %d %s returned %s", i, o, r)
+		if o == "enospc" {
+			armWriteFailure(walDir, 1)
+			continue
+		}
+		var pre *c21Snap
+		armedBefore := armedRemaining(walDir)
+		if armedBefore > 0 {
+			if pre, err = c21Snapshot(kv); err != nil {
+				return out, err
+			}
+		}
+		r := c21Apply(kv, o)
+		failed := armedBefore > 0 && armedRemaining(walDir) < armedBefore // the log write of this mutation failed
+		if failed && out.Dirty == 0 {
+			out.Dirty = 1
+		} else if !failed && r == "ok" && out.Dirty == 1 {
+			out.Dirty = 2
+		}
+		switch {
+		case failed && r != "ok":
+			// refused: the caller got an error; nothing may be visible
+			post, e := c21Snapshot(kv)
+			if e != nil {
+				return out, e
+			}
+			if d, w := pre.diff(post); d != "" {
+				out.Desc, out.What = "refused-but-applied:"+d, fmt.Sprintf("step %d %s: the log write failed (ENOSPC) and the call returned %s, but %s", i, o, r, strings.Replace(w, "before the stop", "before the call", 1))
 				return out, nil
 			}
+			out.Refused++
+		case failed:
+			// acknowledged although the write failed: the restart oracle decides whether it is durable
+			out.AckedFail++
+			post, e := c21Snapshot(kv)
+			if e != nil {
+				return out, e
+			}
+			if d, _ := pre.diff(post); d == "" && pre.other == post.other {
+				out.AckNoop++
+			}
+		case r == "err:prefix-conflict":
 			out.Rejected++
+		case r != "ok":
+			out.Desc, out.What = "mutation-error:"+r, fmt.Sprintf("step %d %s returned %s (no failure injected into this mutation)", i, o, r)
+			return out, nil
 		}
 	}
+	out.Armed = disarmWriteFailure(walDir) > 0
 	if !restart(len(path)) {
 		return out, err
 	}
@@ -298,10 +370,17 @@ func c21(c *report.Check) {
 	if c.Thorough() {
 		depth, coreDepth, bfsDepth, bigDepth = 4, 5, 8, 5
 	}
+	maxFaults := 1 // injected failing log writes per history
+	if c.Thorough() {
+		maxFaults = 2
+	}
 	nw := numWorkers()
 	dist := report.NewDistinct(8)
 	finder := newMinFinder()
 	var mu sync.Mutex
+	refused, ackedFail, ackNoop, faultHist := 0, 0, 0, 0
+	var ackNoopSample []string
+	faultReported, faultUnreported := map[string]int{}, 0
 	var internal []string
 	histories, restarts, rejected, otherDiff, maxSeg, explained := 0, 0, 0, 0, 0, 0
 	states, transitions := 0, 0
@@ -310,6 +389,15 @@ func c21(c *report.Check) {
 	account := func(path []c21Op, o c21Out, variant string) { // mu held
 		restarts += o.Restarts
 		rejected += o.Rejected
+		refused += o.Refused
+		ackedFail += o.AckedFail
+		ackNoop += o.AckNoop
+		if o.Refused+o.AckedFail > 0 {
+			faultHist++
+		}
+		if o.AckNoop > 0 && (ackNoopSample == nil || len(path) < len(ackNoopSample)) {
+			ackNoopSample = opStrs(path)
+		}
 		otherDiff += o.OtherDiff
 		if o.Segments > maxSeg {
 			maxSeg = o.Segments
@@ -331,6 +419,12 @@ func c21(c *report.Check) {
 			rej := "no-rejected"
 			if o.Rejected > 0 {
 				rej = "rejected"
+			}
+			if o.Refused > 0 {
+				rej += "+write-failed-refused"
+			}
+			if o.AckedFail > 0 {
+				rej += "+write-failed-acknowledged"
 			}
 			seg := ""
 			if o.Segments > 1 {
@@ -375,6 +469,15 @@ func c21(c *report.Check) {
 			}
 			ml := opStrs(min)
 			finder.add(scope, ml, last.Desc)
+			if countEvents(min, "enospc") > 0 {
+				// histories with an injected write failure: many minimal histories share one root
+				// cause; the 8 first (shortest, then enumeration order) per variant/hash are reported
+				faultReported[scope]++
+				if faultReported[scope] > 8 {
+					faultUnreported++
+					continue
+				}
+			}
 			c.Violation(fmt.Sprintf("c21:%s:%s:%s:%s", variant, hm.Name, strings.Join(ml, ";"), last.Desc),
 				fmt.Sprintf("variant=%s hash=%s history=%v: %s (minimised from %v)", variant, hm.Name, ml, last.What, lab),
 				map[string]any{"hash": hm.Name, "path": min})
@@ -395,7 +498,7 @@ func c21(c *report.Check) {
 				path[i] = alpha[x%len(alpha)]
 				x /= len(alpha)
 			}
-			if countRestarts(path) > 3 {
+			if countRestarts(path) > 3 || countEvents(path, "enospc") > maxFaults {
 				return
 			}
 			o, err := c21Run(path, hm)
@@ -449,7 +552,7 @@ func c21(c *report.Check) {
 				s := frontier[idx/len(c21Alphabet)]
 				op := c21Alphabet[idx%len(c21Alphabet)]
 				path := append(append([]c21Op(nil), s.path...), op)
-				if countRestarts(path) > 3 {
+				if countRestarts(path) > 3 || countEvents(path, "enospc") > maxFaults {
 					return
 				}
 				o, err := c21Run(path, hm)
@@ -475,7 +578,7 @@ func c21(c *report.Check) {
 					fails = append(fails, c21Fail{i, r.path, r.out})
 					continue
 				}
-				key := fmt.Sprintf("%s|r%d", r.out.Final, countRestarts(r.path))
+				key := fmt.Sprintf("%s|r%d|f%d|dirty=%v|armed=%v", r.out.Final, countRestarts(r.path), countEvents(r.path, "enospc"), r.out.Dirty, r.out.Armed)
 				if seen[key] {
 					continue
 				}
@@ -505,6 +608,13 @@ func c21(c *report.Check) {
 	c.Set("traces_validated_against_impl", histories+transitions)
 	c.Set("stop_reopen_cycles", restarts)
 	c.Set("rejected_mutations", rejected)
+	c.Set("injected_write_failures_refused_with_error", refused)
+	c.Set("injected_write_failures_acknowledged", ackedFail)
+	c.Set("injected_write_failures_acknowledged_without_any_effect", ackNoop)
+	c.Set("injected_write_failures_acknowledged_without_any_effect_sample", ackNoopSample)
+	c.Set("histories_with_a_failed_log_write", faultHist)
+	c.Set("max_failed_log_writes_per_history", maxFaults)
+	c.Set("further_minimal_failing_histories_with_injected_failure_not_reported", faultUnreported)
 	c.Set("max_log_segments", maxSeg)
 	c.Set("histories_with_several_log_segments", multiSegHist)
 	c.Set("restarts_where_listings_or_lease_tokens_differed", otherDiff)
@@ -515,10 +625,11 @@ func c21(c *report.Check) {
 	c.Set("alphabet", opStrs(c21Alphabet))
 	c.Set("alphabet_multisegment", opStrs(c21BigAlphabet))
 	c.Set("alphabet_core", opStrs(c21CoreAlphabet))
-	c.Set("rule", fmt.Sprintf("degenerate hash (a,ab collide): every history of length 1..%d over the %d-event alphabet (mutations incl. duplicate appends that are rejected and rolled back, two imports with overlapping keys, three key removals, and restart; at most 3 restarts inside a history) and of length up to %d over the %d-event core alphabet, each on a fresh directory and followed by a final restart; chord.Hash: the full alphabet to length %d; at every restart Get and PrefixList of a,ab,c before Stop are compared with the same after aof.New on the same directory; both hashes: BFS to depth %d de-duplicated on (content incl. nil/empty distinction, listings, lease tokens, restarts used); multi-segment variant: every history of length 1..%d (chord.Hash: one less) over %d events with 1.1 MB values (2 MB segments); class = (variant, set of event kinds, rejected mutation present, several segments)", depth, len(c21Alphabet), coreDepth, len(c21CoreAlphabet), depth, bfsDepth, bigDepth, len(c21BigAlphabet)))
+	c.Set("rule", fmt.Sprintf("degenerate hash (a,ab collide): every history of length 1..%d over the %d-event alphabet (mutations incl. duplicate appends that are rejected and rolled back, two imports with overlapping keys, three key removals, restart and enospc = the next log write fails; at most 3 restarts and max_failed_log_writes_per_history enospc events inside a history) and of length up to %d over the %d-event core alphabet, each on a fresh directory and followed by a final restart; chord.Hash: the full alphabet to length %d; at every restart Get and PrefixList of a,ab,c before Stop are compared with the same after aof.New on the same directory; both hashes: BFS to depth %d de-duplicated on (content incl. nil/empty distinction, listings, lease tokens, restarts used, failures injected / still armed / consumed since the last restart); multi-segment variant: every history of length 1..%d (chord.Hash: one less) over %d events with 1.1 MB values (2 MB segments); class = (variant, set of event kinds, rejected mutation present, several segments)", depth, len(c21Alphabet), coreDepth, len(c21CoreAlphabet), depth, bfsDepth, bigDepth, len(c21BigAlphabet)))
 	c.Assume("clean stop = DiskKV.Stop() (flush + close) with no mutation in flight; crash points are C20/C22",
+		"event enospc: the next write(2) of the log (patched tidwall/wal copy -> verif/engine/vos.FailOp) returns ENOSPC and writes nothing; bound on such events per history in max_failed_log_writes_per_history; a mutation whose log write failed must either return an error and leave the served content unchanged, or, if acknowledged, be covered by the restart oracle; RemoveKeys always returns nil (the interface documents it as local-only): when its log write fails nothing is removed before or after the restart, counted in injected_write_failures_acknowledged_without_any_effect, not judged here",
 		"simple values compared with empty == absent (C16): Put(k, []byte{}) reads back as an empty non-nil value before the stop and as nil afterwards, which the statement treats as equal; listings and lease tokens before/after are recorded (restarts_where_listings_or_lease_tokens_differed) but are not part of the statement",
-		"a failing history is minimised by greedy event removal and reported once per minimal history and divergence class")
+		"a failing history is minimised by greedy event removal and reported once per minimal history and divergence class; for histories containing an injected write failure at most 8 minimal histories per (variant, hash) are reported (shortest first), the rest are counted")
 }
 
 func c21Replay(c *report.Check, raw []byte) {
